@@ -93,7 +93,10 @@ class Summaries:
 
 
 def check(ctx):
-    prog = ctx.prog
+    # builder methods are judged by their NET effect: every crate-local function they call (other builder methods,
+    # private helpers, `Self::new()`) is inlined first, so `add_critical(p)` = `add_critical_label(Assigned(p))` and
+    # `new_okp_key()` = `Self::new().key_type(OKP)` are the same as the spelled-out bodies
+    prog = ctx.prog.view("all")
     bs = builders(prog)
     ctx.floor("R-1", "builder types", len(bs), 14)
     n_methods = 0
@@ -121,8 +124,8 @@ def check(ctx):
                 ctx.ob("R-2", "build:%s" % bname, rt == SELF0 and not effs, "%s::build() returns the accumulated value unchanged" % bname, where=f.span,
                        detail={"return": show(rt)[:80], "effects": [show(e[1])[:40] for e in effs]})
                 continue
-            if key in B.KEY_CONSTRUCTORS or key == "key::CoseKeyBuilder::new_ec2_priv_key":
-                _key_ctor(ctx, f, pv, rt, effs)
+            if key in B.KEY_CONSTRUCTORS:
+                _key_ctor(ctx, prog, f, pv, rt, effs)
                 continue
             if key == "encrypt::CoseRecipientBuilder::aad":
                 continue  # private helper of create_ciphertext: C05 R-3
@@ -141,7 +144,7 @@ def check(ctx):
                        where=f.span, detail={"found": [_eff_str(e) for e in effs], "return": show(rt)[:60]},
                        sample={"method": key, "effects": [_eff_str(e) for e in effs]})
                 if key in B.GUARDS:
-                    _guard(ctx, f, pv, key)
+                    _guard(ctx, prog, f, pv, key)
                 else:
                     ctx.ob("R-4", "unconditional:%s" % key, _no_panic(f), "%s has no refusing path" % key, where=f.span)
                 continue
@@ -149,7 +152,10 @@ def check(ctx):
             n_setters += 1
             fld = f.name
             if fld not in fields:
-                ctx.ob("R-1", "setter:%s" % key, False, "%s is not a documented method and no field `%s` exists in %s" % (key, fld, wty), where=f.span)
+                # a public method that is neither in the documented-effects table nor a generated setter (an addition to
+                # the API): its documentation is not known to this checker, so nothing is claimed about it
+                ctx.note("%s: public builder method outside the documented-effects table; not checked" % key)
+                n_setters -= 1
                 continue
             fty = fields[fld]
             pty = f.d["inputs"][1] if len(f.d.get("inputs", [])) > 1 else None
@@ -193,8 +199,7 @@ def _no_panic(f):
     return True
 
 
-def _guard(ctx, f, pv, key):
-    prog = ctx.prog
+def _guard(ctx, prog, f, pv, key):
     kind, must_panic, text = B.GUARDS[key]
     panics = [bb for bb, t in f.calls() if (t.get("callee") or {}).get("never")]
     pushes = [e["bb"] for e in pv.effects() if e["kind"] == "call"]
@@ -235,56 +240,87 @@ def _guard(ctx, f, pv, key):
            sample={"method": key, "refused_inputs": sorted(str(k) for k, v in table.items() if v[0])[:12], "points": len(inputs)})
 
 
-def _key_ctor(ctx, f, pv, rt, effs):
-    prog = ctx.prog
-    key = f.key
-    if key == "key::CoseKeyBuilder::new_ec2_priv_key":
-        base_ok = is_call(rt, "key::CoseKeyBuilder::new_ec2_pub_key") and tuple(rt[2]) == (("param", 0), ("param", 1), ("param", 2))
-        want_push = B.pair(B.label("Int", ("const", -4)), ("aggr", "ciborium::value::Value", "Bytes", (("0", ("param", 3)),)))
-        e_ok = len(effs) == 1 and effs[0][0] == "call" and effs[0][1] == B.PUSH and resolve_consts(prog, effs[0][3]) == want_push \
-            and effs[0][2][0] == "field" and effs[0][2][2] == "params"
-        ctx.ob("R-2", "key-ctor:%s" % key, base_ok and e_ok,
-               "new_ec2_priv_key = new_ec2_pub_key(curve, x, y) followed by params.push((-4, Bytes(d)))", where=f.span,
-               detail={"return": show(rt)[:100], "effects": [_eff_str(e) for e in effs]})
-        return
-    kty, params = B.KEY_CONSTRUCTORS[key]
+def returned_struct(prog, f, pv, rt, effs):
+    """net value of the CoseKey inside the builder a constructor returns: ({field: term}, [params entries], problems).
+    The literal's explicit fields, then - in program order - every later assignment to a field and every push onto
+    `params` made to the same object before it is returned; anything else is reported"""
     problems = []
-    inner = None
-    if rt[0] == "aggr" and rt[1] == "key::CoseKeyBuilder":
-        inner = dict(rt[3][0][1][3]) if rt[3][0][1][0] == "aggr" else None
-    if inner is None:
-        problems.append("does not return CoseKeyBuilder(CoseKey{..})")
+    fields = {}
+    params = None
+    if not (rt[0] == "aggr" and rt[1] == "key::CoseKeyBuilder" and rt[3]):
+        return None, None, ["does not return CoseKeyBuilder(..)"]
+    inner = rt[3][0][1]
+    if inner[0] == "aggr" and inner[1] == "key::CoseKey":
+        fields = dict(inner[3])
+    elif is_call(inner) and inner[1].endswith("Default>::default"):
+        fields = {}
     else:
-        if inner.get("kty") != B.rl("Assigned", ("aggr", "iana::KeyType", kty, ())):
-            problems.append("kty is %s, expected Assigned(%s)" % (show(inner.get("kty"))[:60], kty))
-        for fld in ("key_id", "alg", "key_ops", "base_iv"):
-            v = inner.get(fld)
-            if not (v and v[0] == "field" and v[2] == fld and is_call(v[1]) and v[1][1].endswith("Default>::default")):
-                problems.append("%s is %s, expected the default" % (fld, show(v)[:50] if v else None))
-        pvec = inner.get("params")
-        if not params:
-            if not (pvec and pvec[0] == "field" and pvec[2] == "params"):
-                problems.append("params is not the default (empty)")
+        return None, None, ["the wrapped key is %s, not a CoseKey literal / default" % show(inner)[:60]]
+    # `..Default::default()` spells the remaining fields as default().f
+    for k, v in list(fields.items()):
+        if v[0] == "field" and v[2] == k and is_call(v[1]) and v[1][1].endswith("Default>::default"):
+            del fields[k]
+    pvec = fields.pop("params", None)
+    if pvec is None:
+        params = []
+    elif is_call(pvec, codec.BOX_VEC):
+        arr = [e for e in effs if e[0] == "assign" and e[2][0] == "array"]
+        if len(arr) != 1:
+            problems.append("params is not a single vec![..] literal")
+            params = []
         else:
-            arr = [e for e in effs if e[0] == "assign" and e[2][0] == "array"]
-            if len(arr) != 1 or not is_call(pvec, codec.BOX_VEC):
-                problems.append("params is not a vec![..] literal")
+            params = list(arr[0][2][1])
+    elif is_call(pvec, codec.VEC_NEW):
+        params = []
+    else:
+        problems.append("params starts as %s" % show(pvec)[:60])
+        params = []
+    for e in effs:
+        if e[0] == "assign" and e[2][0] == "array":
+            continue
+        place = e[1] if e[0] == "assign" else e[2]
+        # the object being built: a local of this function (after inlining) - its fields are .0.<f> or .<f>
+        fld = None
+        if place[0] == "field" and place[1][0] == "field" and place[1][2] == "0" and place[1][1][0] in ("local", "ret"):
+            fld = place[2]
+        elif place[0] == "field" and place[1][0] in ("local",):
+            fld = place[2]
+        if fld is None:
+            problems.append("effect on something else: %s" % _eff_str(e))
+        elif e[0] == "assign":
+            fields[fld] = e[2]
+        elif e[1] == B.PUSH and fld == "params":
+            params.append(e[3])
+        else:
+            problems.append("additional effect: %s" % _eff_str(e))
+    return fields, params, problems
+
+
+def _key_ctor(ctx, prog, f, pv, rt, effs):
+    key = f.key
+    kty, want_params = B.KEY_CONSTRUCTORS[key]
+    fields, params, problems = returned_struct(prog, f, pv, rt, effs)
+    if fields is not None:
+        if fields.get("kty") != B.rl("Assigned", ("aggr", "iana::KeyType", kty, ())):
+            problems.append("kty is %s, expected Assigned(%s)" % (show(fields.get("kty"))[:60] if fields.get("kty") else "the default", kty))
+        for fld in sorted(set(fields) - {"kty"}):
+            problems.append("%s is set to %s, expected the default" % (fld, show(fields[fld])[:50]))
+        if len(params) != len(want_params):
+            problems.append("params has %d entries, expected %d" % (len(params), len(want_params)))
+        for (lab, vk, pi), it in zip(want_params, params):
+            it = resolve_consts(prog, it)
+            want_l = B.label("Int", ("const", lab))
+            if it[0] != "tuple" or len(it[1]) != 2:
+                problems.append("entry for label %d is %s" % (lab, show(it)[:100]))
+                continue
+            if vk == "curve-as-u64":
+                okv = is_call(it[1][1], "core::convert::From::from") and it[1][1][2][0] == ("cast", "IntToInt", ("discr", ("param", pi)), "u64")
             else:
-                items = arr[0][2][1]
-                if len(items) != len(params):
-                    problems.append("params has %d entries, expected %d" % (len(items), len(params)))
-                for (lab, vk, pi), it in zip(params, items):
-                    it = resolve_consts(prog, it)
-                    want_l = B.label("Int", ("const", lab))
-                    if vk == "curve-as-u64":
-                        okv = is_call(it[1][1], "core::convert::From::from") and it[1][1][2][0] == ("cast", "IntToInt", ("discr", ("param", pi)), "u64")
-                    else:
-                        okv = it[1][1] == ("aggr", "ciborium::value::Value", vk, (("0", ("param", pi)),))
-                    if it[0] != "tuple" or it[1][0] != want_l or not okv:
-                        problems.append("entry for label %d is %s" % (lab, show(it)[:100]))
-        others = [e for e in effs if not (e[0] == "assign" and e[2][0] == "array")]
-        if others:
-            problems.append("additional effects: %s" % [_eff_str(e) for e in others])
+                okv = it[1][1] == ("aggr", "ciborium::value::Value", vk, (("0", ("param", pi)),))
+            if it[1][0] != want_l or not okv:
+                problems.append("entry for label %d is %s" % (lab, show(it)[:100]))
+    if conditional_effects(f, pv):
+        problems.append("an effect of the constructor depends on its arguments")
     ctx.ob("R-2", "key-ctor:%s" % key, not problems,
-           "%s builds kty=%s with parameters %s and everything else default" % (key, kty, [(l, k) for l, k, _ in params]), where=f.span,
-           detail={"problems": problems}, sample={"ctor": key, "kty": kty, "params": [(l, k) for l, k, _ in params]})
+           "%s builds kty=%s with parameters %s and everything else default" % (key, kty, [(l, k) for l, k, _ in want_params]), where=f.span,
+           detail={"problems": problems}, sample={"ctor": key, "kty": kty, "params": [(l, k) for l, k, _ in want_params]})
